@@ -18,6 +18,7 @@ import (
 	"strconv"
 	"strings"
 	"testing"
+	"testing/synctest"
 	"time"
 
 	"github.com/ipfs/boxo/blockservice"
@@ -43,6 +44,10 @@ import (
 )
 
 func TestMain(m *testing.M) { kit.Main(m) }
+
+// hostT is the *testing.T that synctest.Test needs (slow block sources run in a bubble with
+// virtual time); set by TestProp before any case runs.
+var hostT *testing.T
 
 // Node is one node of the generated tree.
 type Node struct {
@@ -99,6 +104,13 @@ type PathSpec struct {
 	MissAt int      `json:"miss_at"`        // -1: the path exists; else segment MissAt is replaced by Miss
 	Miss   string   `json:"miss,omitempty"` // name that is not in the directory
 	Tail   []string `json:"tail,omitempty"` // segments after the missing one
+	// Form is the way the path is written. Every form denotes the same segments (path.NewPath
+	// cleans the string with gopath.Clean but keeps one trailing slash):
+	//   ""        path.Join(path.FromCid(root), segs...)
+	//   "slash"   path.NewPath("/ipfs/<root>/a/b/")      trailing slash, as directory URLs have
+	//   "dslash"  path.NewPath("/ipfs/<root>//a//b/")    doubled separators and trailing slash
+	//   "dot"     path.NewPath("/ipfs/<root>/./a/./b")   "." segments
+	Form string `json:"form,omitempty"`
 }
 
 type Case struct {
@@ -110,10 +122,15 @@ type Case struct {
 	//   "strict-exch" nothing local: every block comes through a session exchange that refuses
 	//                 to work once the call's or the session's context is done (as bitswap
 	//                 does); the local cache blockstore is context-strict too
-	// The caller's context stays alive for the whole case, so none of this may change any result.
-	Source string     `json:"source,omitempty"`
-	Root   *Node      `json:"root"`
-	Paths  []PathSpec `json:"paths"`
+	//   "slow-bs"     as strict-bs, and every block read takes DelayMs of (virtual) time
+	//   "slow-exch"   as strict-exch, and every block the exchange delivers takes DelayMs
+	// The caller's context stays alive for the whole case and the latency of a whole resolution
+	// (a few dozen block loads of at most 100 ms) stays far below the resolver's own one-minute
+	// session bound, so none of this may change any result.
+	Source  string     `json:"source,omitempty"`
+	DelayMs int        `json:"delay_ms,omitempty"` // slow-*: latency per block (clamped to 1..100)
+	Root    *Node      `json:"root"`
+	Paths   []PathSpec `json:"paths"`
 }
 
 // ---------------------------------------------------------------------------
@@ -206,6 +223,7 @@ func freeName(cand string, has map[string]bool) string {
 
 func genPath(t *rapid.T, root *Node) PathSpec {
 	p := PathSpec{MissAt: -1}
+	p.Form = rapid.SampledFrom([]string{"", "", "", "slash", "slash", "dslash", "dot"}).Draw(t, "form")
 	cur := root
 	dirs := []*Node{} // directory at each level that was entered
 	for cur.isDir() {
@@ -256,7 +274,10 @@ func genPath(t *rapid.T, root *Node) PathSpec {
 
 func gen(t *rapid.T) Case {
 	c := Case{CidV1: rapid.Bool().Draw(t, "cidv1")}
-	c.Source = rapid.SampledFrom([]string{"", "strict-bs", "strict-bs", "strict-exch", "strict-exch"}).Draw(t, "source")
+	c.Source = rapid.SampledFrom([]string{"", "strict-bs", "strict-bs", "strict-exch", "strict-exch", "slow-bs", "slow-exch"}).Draw(t, "source")
+	if strings.HasPrefix(c.Source, "slow-") {
+		c.DelayMs = rapid.SampledFrom([]int{1, 5, 20, 50, 100, 100}).Draw(t, "delayms")
+	}
 	budget := kit.Scale(7, 12)
 	// the root is always a directory
 	c.Root = genNode(t, 0, &budget)
@@ -415,8 +436,35 @@ func (b *builder) build(n *Node) (format.Node, *built, error) {
 // datastore never looks at it, which would hide a resolver that keeps using a session whose
 // context it has already cancelled while the caller's context is still alive.
 
+//
+// The slow variants add latency to every block read: the read returns after `delay` of the
+// bubble's virtual time, or earlier with the context's error when a context ends first (as a
+// disk or network read does).
+
 type strictBS struct {
 	blockstore.Blockstore
+	delay time.Duration // > 0: latency of Get
+}
+
+// wait lets d pass unless one of the contexts ends first.
+func wait(d time.Duration, ctxs ...context.Context) error {
+	if d <= 0 {
+		return nil
+	}
+	tm := time.NewTimer(d)
+	defer tm.Stop()
+	var done2 <-chan struct{}
+	if len(ctxs) > 1 && ctxs[1] != nil {
+		done2 = ctxs[1].Done()
+	}
+	select {
+	case <-tm.C:
+		return nil
+	case <-ctxs[0].Done():
+		return ctxs[0].Err()
+	case <-done2:
+		return ctxs[1].Err()
+	}
 }
 
 func (s strictBS) Has(ctx context.Context, c cid.Cid) (bool, error) {
@@ -428,6 +476,9 @@ func (s strictBS) Has(ctx context.Context, c cid.Cid) (bool, error) {
 
 func (s strictBS) Get(ctx context.Context, c cid.Cid) (blocks.Block, error) {
 	if err := ctx.Err(); err != nil {
+		return nil, err
+	}
+	if err := wait(s.delay, ctx); err != nil {
 		return nil, err
 	}
 	return s.Blockstore.Get(ctx, c)
@@ -459,6 +510,7 @@ func (s strictBS) PutMany(ctx context.Context, bs []blocks.Block) error {
 type strictFetcher struct {
 	remote blockstore.Blockstore
 	sesctx context.Context // nil: not a session
+	delay  time.Duration   // > 0: latency of every delivery
 }
 
 func (f *strictFetcher) alive(ctx context.Context) error {
@@ -475,6 +527,9 @@ func (f *strictFetcher) GetBlock(ctx context.Context, c cid.Cid) (blocks.Block, 
 	if err := f.alive(ctx); err != nil {
 		return nil, err
 	}
+	if err := wait(f.delay, ctx, f.sesctx); err != nil {
+		return nil, err
+	}
 	return f.remote.Get(ctx, c)
 }
 
@@ -482,6 +537,9 @@ func (f *strictFetcher) GetBlocks(ctx context.Context, cs []cid.Cid) (<-chan blo
 	out := make(chan blocks.Block, len(cs))
 	defer close(out)
 	if err := f.alive(ctx); err != nil {
+		return out, err
+	}
+	if err := wait(f.delay, ctx, f.sesctx); err != nil {
 		return out, err
 	}
 	for _, c := range cs {
@@ -501,7 +559,7 @@ func (e *strictExchange) NotifyNewBlocks(ctx context.Context, _ ...blocks.Block)
 }
 func (e *strictExchange) Close() error { return nil }
 func (e *strictExchange) NewSession(ctx context.Context) exchange.Fetcher {
-	return &strictFetcher{remote: e.remote, sesctx: ctx}
+	return &strictFetcher{remote: e.remote, sesctx: ctx, delay: e.delay}
 }
 
 var _ exchange.SessionExchange = (*strictExchange)(nil)
@@ -509,12 +567,28 @@ var _ exchange.SessionExchange = (*strictExchange)(nil)
 // ---------------------------------------------------------------------------
 // run
 
+// run executes the case; with a slow block source it does so inside a testing/synctest
+// bubble, so that the latency, the resolver's session timeout and the harness budget all run
+// on the bubble's virtual clock (deterministic, and no real waiting).
 func run(c Case) kit.Result {
+	if !strings.HasPrefix(c.Source, "slow-") {
+		return runCase(c)
+	}
+	if hostT == nil {
+		return kit.Fail("harness: no host *testing.T for the synctest bubble")
+	}
+	var res kit.Result
+	synctest.Test(hostT, func(*testing.T) { res = runCase(c) })
+	return res
+}
+
+func runCase(c Case) kit.Result {
 	if c.Root == nil || !c.Root.isDir() {
 		return kit.Fail("malformed case: root must be a directory")
 	}
 	ctx, cancel := context.WithTimeout(context.Background(), 5*time.Minute)
 	defer cancel()
+	delay := time.Duration(min(max(c.DelayMs, 1), 100)) * time.Millisecond
 
 	// the tree is built through a plain block service over the map blockstore `bs`; the
 	// resolver reads it through the block source the case asks for
@@ -525,11 +599,17 @@ func run(c Case) kit.Result {
 	case "":
 		bsrv = buildSrv
 	case "strict-bs":
-		sbs := strictBS{bs}
+		sbs := strictBS{Blockstore: bs}
 		bsrv = blockservice.New(sbs, offline.Exchange(sbs))
 	case "strict-exch":
-		local := strictBS{blockstore.NewBlockstore(dssync.MutexWrap(ds.NewMapDatastore()))}
+		local := strictBS{Blockstore: blockstore.NewBlockstore(dssync.MutexWrap(ds.NewMapDatastore()))}
 		bsrv = blockservice.New(local, &strictExchange{strictFetcher{remote: bs}})
+	case "slow-bs":
+		sbs := strictBS{Blockstore: bs, delay: delay}
+		bsrv = blockservice.New(sbs, offline.Exchange(sbs))
+	case "slow-exch":
+		local := strictBS{Blockstore: blockstore.NewBlockstore(dssync.MutexWrap(ds.NewMapDatastore()))}
+		bsrv = blockservice.New(local, &strictExchange{strictFetcher{remote: bs, delay: delay}})
 	default:
 		return kit.Fail("malformed case: block source %q", c.Source)
 	}
@@ -546,7 +626,7 @@ func run(c Case) kit.Result {
 	r := resolver.NewBasicResolver(fetcherCfg.WithReifier(unixfsnode.Reify))
 
 	nt := false
-	var nExist, nMiss, nHamt, nDeep int
+	var nExist, nMiss, nHamt, nDeep, nForm int
 	// Known finding EMPTY-HAMT: a HAMT directory without entries is written by boxo's HAMT
 	// without the UnixFS 'Data' (bitfield) field, which the unixfsnode reifier refuses to
 	// load. Signature: the node the resolver has to open last is such a directory and the
@@ -604,16 +684,32 @@ func run(c Case) kit.Result {
 				segs = append(segs, tl)
 			}
 		}
-		p, err := path.Join(path.FromCid(root.cid), segs...)
+		var p path.Path
+		var err error
+		switch ps.Form {
+		case "":
+			p, err = path.Join(path.FromCid(root.cid), segs...)
+		case "slash":
+			p, err = path.NewPath(path.FromCid(root.cid).String() + "/" + strings.Join(segs, "/") + "/")
+		case "dslash":
+			p, err = path.NewPath(path.FromCid(root.cid).String() + "//" + strings.Join(segs, "//") + "/")
+		case "dot":
+			p, err = path.NewPath(path.FromCid(root.cid).String() + "/./" + strings.Join(segs, "/./"))
+		default:
+			return kit.Fail("malformed case: path %d has form %q", pi, ps.Form)
+		}
 		if err != nil {
-			return kit.Fail("harness: path.Join(%q): %v", segs, err)
+			return kit.Fail("harness: building the %q path of %q: %v", ps.Form, segs, err)
 		}
 		ip, err := path.NewImmutablePath(p)
 		if err != nil {
 			return kit.Fail("harness: NewImmutablePath(%s): %v", p, err)
 		}
-		if got := ip.Segments()[2:]; len(got) != len(segs) {
+		if got := ip.Segments()[2:]; strings.Join(got, "/") != strings.Join(segs, "/") || len(got) != len(segs) {
 			return kit.Fail("harness: path %q has segments %q, wanted %q", ip, got, segs)
+		}
+		if ps.Form != "" {
+			nForm++
 		}
 
 		gotCid, rem, err1 := r.ResolveToLastNode(ctx, ip)
@@ -724,6 +820,9 @@ func run(c Case) kit.Result {
 	if nExist > 0 {
 		cls = append(cls, "existing")
 	}
+	if nForm > 0 {
+		cls = append(cls, "path-written-uncleaned")
+	}
 	if nHamt > 0 {
 		cls = append(cls, "path-through-hamt")
 	}
@@ -761,9 +860,12 @@ func sample(c Case) any {
 
 var spec = kit.Spec[Case]{
 	Prop: "C33", Name: "main",
-	Rule:  "random UnixFS tree (dir depth <= 4; basic, HAMT fanout 8..256, MaxLinks-converted dynamic dirs; 0..400 entries per dir; raw/file/multi-chunk/symlink leaves; CIDv0 or v1) built into an in-memory block service and read back through a plain, a context-strict local, or a context-strict remote (session exchange) block source, 1-8 paths per tree (existing, or broken at any position by an absent name incl. near-miss names, with optional trailing segments) resolved by the gateway's resolver wiring; non-trivial = a resolved path crosses a HAMT directory with >= 2 shard levels",
+	Rule:  "random UnixFS tree (dir depth <= 4; basic, HAMT fanout 8..256, MaxLinks-converted dynamic dirs; 0..400 entries per dir; raw/file/multi-chunk/symlink leaves; CIDv0 or v1) built into an in-memory block service and read back through a plain, a context-strict local, or a context-strict remote (session exchange) block source, the latter two also with 1-100 ms virtual latency per block (synctest bubble), 1-8 paths per tree (existing, or broken at any position by an absent name incl. near-miss names, with optional trailing segments; written via path.Join or as a NewPath string with trailing slash / doubled slashes / '.' segments) resolved by the gateway's resolver wiring; non-trivial = a resolved path crosses a HAMT directory with >= 2 shard levels",
 	Quick: 1000, Thorough: 6000,
 	Gen: gen, Run: run, Sample: sample,
 }
 
-func TestProp(t *testing.T) { kit.All(t, spec) }
+func TestProp(t *testing.T) {
+	hostT = t
+	kit.All(t, spec)
+}
